@@ -50,7 +50,7 @@ ASSUMPTIONS = ['validity predicate for addresses: dot-atom without dots or '
                'quoted-string local part, fixed domain']
 CELL_BUDGET_S = {'quick': 240, 'thorough': 2400}
 SAMPLE_P = 0.02
-MAX_WITNESSES = 6
+MAX_WITNESSES = 10
 MAX_DECISIONS = 60000
 
 ATEXT = "!#$%&'*+-/=?^_`{|}~0123456789" \
